@@ -9,8 +9,11 @@ package main
 
 import (
 	"bytes"
+	"crypto/sha256"
+	"encoding/binary"
 	"encoding/hex"
 	"fmt"
+	"math/big"
 	"math/rand"
 	"regexp"
 	"strings"
@@ -20,7 +23,7 @@ import (
 
 type needle struct {
 	b     []byte
-	class string // dh (40 byte exponent), r16, smp (SMP exponent), text
+	class string // dh (40 byte exponent), r16, smp (SMP exponent), text, akekey (c, c', m1, m2, m1', m2' of a key exchange)
 	born  int    // op counter when it appeared
 }
 
@@ -30,6 +33,10 @@ type memSide struct {
 	seenRand int // how many entries of the rand log have been turned into needles
 	aliases  []memAlias
 	texts    [][]byte
+	// DH exponents that have been one of the conversation's own key generations (seen at
+	// c.keys.ourCurrentDHKeys / ourPreviousDHKeys): once such an exponent is no longer there, the
+	// generation is retired and nothing else may still hold it
+	sessionKey map[int]bool
 }
 
 type memAlias struct {
@@ -40,6 +47,7 @@ type memAlias struct {
 }
 
 var dhAllowed = regexp.MustCompile(`^c\.(keys\.our(Current|Previous)DHKeys\.priv|ake\.secretExponent|ake\.keys\.our(Current|Previous)DHKeys\.priv)$`)
+var dhSession = regexp.MustCompile(`^c\.keys\.our(Current|Previous)DHKeys\.priv$`)
 var smpAllowed = regexp.MustCompile(`^c\.smp\.(s1|s2|s3)\.`)
 var textAllowed = regexp.MustCompile(`^c\.resend\.messages\.m\[\d+\]\.m$`)
 
@@ -77,6 +85,16 @@ func (g *gen) memCheck(w *world, ms *memSide, where string) int {
 	olog.ok("C08")
 	reachable := map[int]bool{}
 	textsReachable := 0
+	if ms.sessionKey == nil {
+		ms.sessionKey = map[int]bool{}
+	}
+	inSession := map[int]bool{}
+	for _, h := range hits {
+		if ms.needles[h.Needle].class == "dh" && dhSession.MatchString(h.Path) {
+			inSession[h.Needle] = true
+		}
+	}
+	exchangeOver := !snap.HasAke || snap.AkeState == 0
 	for _, h := range hits {
 		n := ms.needles[h.Needle]
 		reachable[h.Needle] = true
@@ -87,6 +105,13 @@ func (g *gen) memCheck(w *world, ms *memSide, where string) int {
 				olog.viol("C08", "dh-exponent-retained:"+pathClass(h.Path), desc)
 			} else if snap.MsgState != 1 && strings.HasPrefix(h.Path, "c.keys.") {
 				olog.viol("C08", "dh-exponent-after-session-end", desc)
+			} else if ms.sessionKey[h.Needle] && !inSession[h.Needle] {
+				// it was the current or the previous key of the conversation and no longer is: retired
+				olog.viol("C08", "dh-exponent-retained:"+pathClass(h.Path), desc+": the exponent belongs to a retired key generation (it is neither the current nor the previous DH key any more)")
+			} else if inSession[h.Needle] && exchangeOver && strings.HasPrefix(h.Path, "c.ake.") {
+				// the exchange has completed (its exponent has become a key of the conversation) and
+				// no other is in progress: the context of the exchange must have been erased
+				olog.viol("C08", "ake-ephemeral-retained:"+pathClass(h.Path), desc+": the key exchange is over, its context still holds the secret exponent")
 			}
 		case "r16":
 			// r is public once the Reveal-Signature message that carries it has been built
@@ -94,6 +119,12 @@ func (g *gen) memCheck(w *world, ms *memSide, where string) int {
 				continue
 			}
 			if !(strings.HasPrefix(h.Path, "c.ake.r") && snap.HasAke && snap.AkeState != 0) && !smpAllowed.MatchString(h.Path) {
+				olog.viol("C08", "ake-ephemeral-retained:"+pathClass(h.Path), desc)
+			}
+		case "akekey":
+			// the encryption and MAC keys of the Reveal Signature / Signature messages live in the
+			// context of the exchange, as long as it is in progress
+			if !((strings.HasPrefix(h.Path, "c.ake.revealKey.") || strings.HasPrefix(h.Path, "c.ake.sigKey.")) && !exchangeOver) {
 				olog.viol("C08", "ake-ephemeral-retained:"+pathClass(h.Path), desc)
 			}
 		case "smp":
@@ -109,6 +140,9 @@ func (g *gen) memCheck(w *world, ms *memSide, where string) int {
 			}
 		}
 		ms.aliases = append(ms.aliases, memAlias{h.Needle, h.Path, h.Buf, bigOrNil(h)})
+	}
+	for i := range inSession {
+		ms.sessionKey[i] = true
 	}
 	if snap.MsgState == 1 && textsReachable > 1 {
 		olog.viol("C08", "session-history-retained", fmt.Sprintf("%s: %d earlier texts are reachable while encrypted", where, textsReachable))
@@ -286,6 +320,145 @@ func (g *gen) memScenario(w *world, steps int) {
 		}
 	}
 	_ = hex.EncodeToString
+}
+
+
+// C08: the randomness source of one side fails exactly at the last draw of a key exchange (the first
+// follow-up DH key, drawn when the exchange completes: while the Signature message is processed by
+// the side that sent the D-H Commit, or the Reveal Signature message by the other one), then works
+// again. The conversation goes on - for the peer the exchange went through - and keys rotate. After
+// every call the conversation is scanned: the exponent of the exchange must be gone once its key
+// generation is retired, r and the keys of the Reveal Signature / Signature messages (derived here
+// from both exponents) once the exchange is over.
+func (g *gen) lastDrawFails(w *world, sigSide bool, k int) (readsInCall int) {
+	w.parties = map[string]*party{}
+	w.dead = false
+	version := 2 + g.r.Intn(2)
+	pol := 2
+	if version == 3 {
+		pol = 4
+	}
+	a := w.newParty(partyCfg{policies: pol, keyIdx: 0, errh: true})
+	b := w.newParty(partyCfg{policies: pol, keyIdx: 1, errh: true})
+	l := &link{w: w, a: a, b: b}
+	sa, sb := &memSide{p: a}, &memSide{p: b}
+	side := func(p *party) *memSide {
+		if p == a {
+			return sa
+		}
+		return sb
+	}
+	role := "the Reveal Signature message"
+	failing := a
+	if sigSide {
+		role, failing = "the Signature message", b
+	}
+	ctx := fmt.Sprintf("OTRv%d, key exchange started by %s (D-H Commit) with %s", version, b.id, a.id)
+	after := func(p *party, what string) { g.memCheck(w, side(p), ctx+"; "+what) }
+	step := func(p *party, ms []otr3.ValidMessage, what string) (out []otr3.ValidMessage) {
+		for _, m := range ms {
+			_, ts, _, _ := w.recv(p, m)
+			out = append(out, ts...)
+			after(p, what)
+		}
+		return
+	}
+	// a asks, b starts: b -> D-H Commit, a -> D-H Key, b -> Reveal Signature, a -> Signature
+	commit := step(b, []otr3.ValidMessage{w.query(a)}, "after the query message")
+	dhkey := step(a, commit, "after the D-H Commit message")
+	reveal := step(b, dhkey, "after the D-H Key message")
+	if w.dead || len(reveal) == 0 {
+		return 0
+	}
+	// the keys of this exchange, from the two exponents (the first 40 byte draw of either side)
+	first40 := func(p *party) []byte {
+		for _, d := range p.rnd.history {
+			if len(d) == 40 {
+				return d
+			}
+		}
+		return nil
+	}
+	if x, y := first40(b), first40(a); x != nil && y != nil {
+		e := new(big.Int).Mul(new(big.Int).SetBytes(x), new(big.Int).SetBytes(y))
+		sb2 := new(big.Int).Exp(big.NewInt(2), e, specDHP).Bytes()
+		sec := append(binary.BigEndian.AppendUint32(nil, uint32(len(sb2))), sb2...)
+		for i := byte(1); i <= 5; i++ {
+			d := sha256.Sum256(append([]byte{i}, sec...))
+			parts := [][]byte{d[:]}
+			if i == 1 {
+				parts = [][]byte{d[:16], d[16:]}
+			}
+			for _, part := range parts {
+				for _, ms := range []*memSide{sa, sb} {
+					ms.needles = append(ms.needles, needle{append([]byte{}, part...), "akekey", 0})
+				}
+			}
+		}
+	}
+	var sig []otr3.ValidMessage
+	if sigSide {
+		sig = step(a, reveal, "after the Reveal Signature message")
+	}
+	base := failing.rnd.reads
+	ctx = fmt.Sprintf("OTRv%d, key exchange started by %s (D-H Commit) with %s, the randomness source of %s fails at its read #%d (counted from 0; %d reads were made before this call) while it processes %s", version, b.id, a.id, failing.id, base+k, base, role)
+	if sigSide {
+		b.rnd.failAt = base + k
+		l.enqueue(b, step(b, sig, "after the Signature message (randomness failed)"))
+	} else {
+		a.rnd.failAt = base + k
+		sig = step(a, reveal, "after the Reveal Signature message (randomness failed)")
+		l.enqueue(a, sig)
+	}
+	readsInCall = failing.rnd.reads - base
+	hit := readsInCall > k
+	failing.rnd.failAt = -1 // the source has recovered
+	g.dist[fmt.Sprintf("lastdraw:sig=%v:hit=%v", sigSide, hit)]++
+	if hit {
+		ctx += "; the source works again"
+	} else {
+		ctx = fmt.Sprintf("OTRv%d, key exchange started by %s (D-H Commit) with %s, no randomness failure", version, b.id, a.id)
+	}
+	deliver := func(toB bool) {
+		q, p := &l.qab, b
+		if !toB {
+			q, p = &l.qba, a
+		}
+		if len(*q) == 0 {
+			return
+		}
+		m := (*q)[0]
+		*q = (*q)[1:]
+		_, ts, _, _ := w.recv(p, m)
+		l.enqueue(p, ts)
+		after(p, "after Receive")
+	}
+	settle := func() {
+		for i := 0; i < 40 && (len(l.qab) > 0 || len(l.qba) > 0) && !w.dead; i++ {
+			deliver(true)
+			deliver(false)
+		}
+	}
+	settle()
+	ctx0 := ctx
+	// ping-pong, the side for which the exchange went through begins: every round trip rotates keys
+	order := []*party{a, b}
+	if !sigSide {
+		order = []*party{b, a}
+	}
+	rounds := 4 + g.r.Intn(2)
+	for i := 0; i < rounds && !w.dead; i++ {
+		for _, p := range order {
+			ctx = fmt.Sprintf("%s; round trip #%d of the exchange of texts that follows, %s speaks", ctx0, i+1, p.id)
+			text := g.cleanText()
+			side(p).needles = append(side(p).needles, needle{text, "text", i})
+			ts, _ := w.send(p, text)
+			l.enqueue(p, ts)
+			after(p, "after Send")
+			settle()
+		}
+	}
+	return
 }
 
 
@@ -486,6 +659,17 @@ func init() {
 			}
 			if i%2 == 0 {
 				g.closedSessionText(w)
+			}
+		}
+		// after everything else (the scenarios above keep their random choices): a key exchange in
+		// which the randomness source fails at one of the last reads, swept over the reads of the call
+		for i := 0; i < (n+9)/10; i++ {
+			for _, sigSide := range []bool{true, false} {
+				for k := 0; k < 4; k++ {
+					if k >= g.lastDrawFails(w, sigSide, k) {
+						break // the call makes no more than k reads: every index has been covered
+					}
+				}
 			}
 		}
 		extra["panics"] = panicCount
